@@ -5,7 +5,7 @@ CONSTANTS
  MCShapes = {"img", "schema1"}
  MCPairs = {"tworeg", "samereg"}
  MCOpts <- MCOptsDefault
- MCFeats <- MCFeatsMount
+ MCFeats <- MCFeatsMount3
  MCInit = "all"
  MCTag0 = {"none"}
  MCByDigest = {FALSE}
